@@ -21,7 +21,7 @@ from cassandra.protocol import ColumnMetadata  # noqa: E402
 UNSET = cq.UNSET_VALUE
 
 META = dict(
-    level='bounded_model_checking',
+    level='model_checking',
     level_text='every bind-metadata shape, value-list shape and protocol version within the bounds is explored (solver-forked choices) with the bound values symbolic; z3 proves per path that the serialized values and the routing key equal the specification encoding for every value',
     level_note='at most 3 bind markers of types int/blob, at most 4 supplied values, blobs of at most 2 bytes; the binding rules oracle is hand-written from the bind() docstring and the native-protocol spec; z3 trusted',
     technique='symbolic execution (sx proxies over the real cassandra.query.BoundStatement.bind / routing_key / _key_parts_packed / PreparedStatement.from_message) + z3 validity queries per path; counterexamples replayed concretely',
